@@ -44,6 +44,12 @@ func (e *Exec) classOfStruct(t types.Type, obj *StructV) *Term {
 	s := t.Underlying().(*types.Struct)
 	var parts []*Term
 	for i := 0; i < s.NumFields(); i++ {
+		// an embedded GroupKey is the whole key (Less is promoted from it)
+		if f := s.Field(i); f.Embedded() && f.Name() == "GroupKey" {
+			return rowClass(obj.Fields[i].(*SliceV))
+		}
+	}
+	for i := 0; i < s.NumFields(); i++ {
 		f := s.Field(i)
 		switch ft := f.Type().Underlying().(type) {
 		case *types.Slice:
@@ -214,6 +220,18 @@ func (env *SpecEnv) btreeSpec(name string, n *ast.CallExpr) (SV, bool) {
 	aIB, aII := arrSort(SInt, sortArrIB), arrSort(SInt, sortArrII)
 	tree := func() *Term { return env.eval(n.Args[0]).(*PtrV).Addr }
 	switch name {
+	case "calls":
+		nm := n.Args[0].(*ast.Ident).Name
+		if v, ok := st.ghost["$calls."+nm]; ok {
+			return v, true
+		}
+		return intSV(intLit(0)), true
+	case "callsAtLastMeta":
+		nm := n.Args[0].(*ast.Ident).Name
+		if v, ok := st.ghost["$callsAtMeta."+nm]; ok {
+			return v, true
+		}
+		return intSV(intLit(0)), true
 	case "outAtLastMeta":
 		if v, ok := st.ghost["$outAtMeta"]; ok {
 			return v, true
@@ -363,8 +381,17 @@ func (env *SpecEnv) btreeSpec(name string, n *ast.CallExpr) (SV, bool) {
 		return &Scalar{T: ufun(name, sorts, SStr, ts...), Ty: types.Typ[types.String]}, true
 	case "cachetag":
 		return intSV(ufun("ghost.cachetag", []string{SInt}, SInt, env.eval(n.Args[0]).(*PtrV).Addr)), true
+	case "now":
+		// inside old(...): evaluate in the current state (e.g. old(thas(t, now(cls(key)))) — the tree before, the key now)
+		if env.nowEnv == nil {
+			return env.eval(n.Args[0]), true
+		}
+		return env.nowEnv.eval(n.Args[0]), true
 	case "old":
 		o := *env
+		if env.nowEnv == nil {
+			o.nowEnv = env
+		}
 		switch {
 		case env.oldSt != nil:
 			o.st = env.oldSt
